@@ -54,7 +54,7 @@ func (check) Assumptions() []string {
 		"not judged (monitored only): the SIZE of a correctly computed value. References that multiply (a0 = ${a1}${a1}, ... 37 lines -> 64 GB) make String/Unpack allocate what the result needs; the statement bounds array slots by MaxIdx and says nothing about the length of an expanded string or the number of nodes reached through references - a cap would be a new configured limit, not a correction",
 		"not generated: user types whose own methods panic when the library calls them as documented - this includes a struct EMBEDDING a nil Validator/Initializer/Unpacker interface (the promoted method panics in plain Go as well); a NAMED field of such an interface type holding nil is generated (the library must not call through it)",
 		"not generated: nil *Config / *Diff RECEIVERS (a nil receiver is not one of the inputs the property quantifies over); nil and zero-value configs as ARGUMENTS (SetChild, Merge, NewFrom, diff.CompareConfigs) and zero-value receivers are generated",
-		"step budget: 4000 reference resolutions per call (plus 10 per path segment of the name argument); the configs read under VarExp have at most a few dozen settings (deep documents hold at most one reference per 1000 levels)",
+		"step budget: 4000 reference resolutions per call (plus 10 per path segment of the name argument; reads after merges: plus 256 per stored node, at most 30000); the configs read under VarExp have at most a few dozen settings (deep documents hold at most one reference per 1000 levels)",
 		"workload (e): which of two map keys (map presentations, loaded documents) the library meets first is Go's map order and not under the check's control - both insertion orders are sent; the struct presentations (field order) are the deterministic carriers of the visiting order",
 		"lexer conservation: start==exit is expected the moment a call returns (the exit event is emitted before the channel closes and parseSplice drains until close); an exit event arriving within ~180 ms after the return is accepted (the place of the hook is not part of the claim), only a deficit that stays is a leak",
 	}
